@@ -151,8 +151,11 @@ Definition parse_core (t : bytes) : option core :=
 (* generated from the Go source on every run (tools/gen -> Gen/Tables.v) *)
 Definition github_qualifier_precedence : list (bytes * Z) :=
   Eval cbv delta [Verif.Gen.Tables.github_getQualifierPrecedence] in Verif.Gen.Tables.github_getQualifierPrecedence.
+(* the switch's default branch, also generated *)
+Definition qual_prec_default : Z :=
+  Eval cbv delta [Verif.Gen.Tables.github_getQualifierPrecedence_default] in Verif.Gen.Tables.github_getQualifierPrecedence_default.
 Definition qual_prec (q : bytes) : Z :=
-  match lookup q github_qualifier_precedence with Some p => p | None => 99%Z end.
+  match lookup q github_qualifier_precedence with Some p => p | None => qual_prec_default end.
 
 Definition is_nil (s : bytes) : bool := match s with [] => true | _ => false end.
 
